@@ -39,6 +39,8 @@ const IMMEDIATE: &[&str] = &[
     "TRACE", "NOTRACE", "STATS", "INPUT Q", "INPUT Q$", "STOP", "END", "GOSUB 10", "GOTO 10", "DEF FNQ(X) = X",
     "IF 1 THEN PRINT 2 ELSE PRINT 3", "PRINT 1/0", "Y = \"s\"", "DIM Z(3,3)", "PRINT E(11)", "T$(3) = \"x\"", "LET W = W + 1",
     "FOR I = 1 TO 2 : PRINT I : NEXT I", "?", ":", "REM hi", "DATA 1,2",
+    // a FOR whose control variable cannot hold a number fails; what it leaves behind must not trip a later NEXT / FOR
+    "FOR A$ = 1 TO 3", "NEXT A$", "FOR N$ = 1 TO 2 : NEXT N$", "FOR A$ = 1 TO 3 : PRINT 1", "IF 1 THEN STOP", "IF 1 THEN IF 1 THEN STOP",
     // string values that spell the numerals the reply scripts use (what a string variable held must not colour how a reply is read)
     "A$ = \"7\" : B$ = \"5\"", "N$ = \"1\" : A$ = \"2\"", "B$ = \"0\" : N$ = \"3\"", "T$(1) = \"12\" : T$(2) = \"5\"", "A$ = \"-3\" : B$ = \"4.5\"",
     // arrays with the names and cell counts the generated programs use, but another shape
